@@ -45,6 +45,17 @@ the value it held (default / last mirrored value / value held when it was relink
 the source moves to a value for which the reference resolves the parameter mirrors it; override
 and relink end the link as for every other kind.
 
+Context-form family CX: the operations  cm<i> (positional mapping)  ci<i> (list of pairs)  cx12 / cm12 (both
+parameters by keywords / by one mapping)  cb12 cb21 (mapping for one parameter AND a keyword for the other)
+cp12 cp21 (list of pairs AND a keyword)  cd<i> (the same parameter in the mapping and as a keyword: the keyword
+wins) open `with t.param.update(...)` in the other calling conventions; histories  [pre] ; c.. ; [post]  with
+pre in {-, rl1, rl2, ov2, u1}, post in {u1, u2, ov1, rl2}.  Oracle as for cx: the overridden parameters hold
+the plain values inside, and on exit every link that was suspended is re-established (the parameter shows the
+source value of that moment and follows the later source updates).
+
+Family RJ (bounded/c08_rj.py): syncs that REJECT the delivered value (source value outside the bounds of the
+linked parameter).
+
 Two further families live in bounded/c08_ext.py (see its docstring): RE -- re-entrant syncs (links of
 one object that feed each other: t.a <- s.x, t.b <- bind(f, s.x, t.a), chains a -> b -> c, and a user
 watcher on a linked parameter that changes the source again while the sync is being delivered) and
@@ -63,6 +74,7 @@ from concurrent.futures import ProcessPoolExecutor
 
 from bounded._api import Bounded, REPLAY_HEADER
 from bounded import c08_ext
+from bounded import c08_rj
 
 PRELUDE = '''import logging, warnings
 import param
@@ -153,6 +165,32 @@ MODES = ['ctor', 'later', 'mixed']
 A1 = [('P', 2), ('L', 1), ('R', 2)]
 A2 = [('P', 1), ('L', 2)]
 OPS = ['u1', 'u2', 'rl1', 'rl2', 'ov1', 'ov2', 'cx1', 'cx2']
+# `with t.param.update(...)` in the other calling conventions (family CX)
+CXOPS = ['cm1', 'cm2', 'ci1', 'ci2', 'cx12', 'cm12', 'cb12', 'cb21', 'cp12', 'cp21', 'cd1', 'cd2']
+CX_PRE = [(), ('rl1',), ('rl2',), ('ov2',), ('u1',)]
+CX_POST = [('u1',), ('u2',), ('ov1',), ('rl2',)]
+CX_FORM = {'x': 'keywords', 'm': 'mapping', 'i': 'pairs', 'b': 'mapping+keyword', 'p': 'pairs+keyword',
+           'd': 'mapping+same-keyword'}
+
+
+def ctx_call(form, items):
+    """source text of the update(...) call; items: [(parameter index, plain value)]"""
+    kw = lambda its: ', '.join('p%d=%d' % it for it in its)
+    mp = lambda its: '{%s}' % ', '.join("'p%d': %d" % it for it in its)
+    pr = lambda its: '[%s]' % ', '.join("('p%d', %d)" % it for it in its)
+    if form == 'x':
+        return 't.param.update(%s)' % kw(items)
+    if form == 'm':
+        return 't.param.update(%s)' % mp(items)
+    if form == 'i':
+        return 't.param.update(%s)' % pr(items)
+    if form == 'b':
+        return 't.param.update(%s, %s)' % (mp(items[:1]), kw(items[1:]))
+    if form == 'p':
+        return 't.param.update(%s, %s)' % (pr(items[:1]), kw(items[1:]))
+    if form == 'd':
+        return 't.param.update(%s, %s)' % (mp([(items[0][0], items[0][1] - 1000)]), kw(items))
+    raise ValueError(form)
 
 
 def fval(kind, v, vo):
@@ -284,20 +322,24 @@ class Script:
             self.v[i] = -f1
             self.lines.append("s%d.v = %d" % (i, -f1))
             self.check(name)
-        elif name[:2] == 'cx':
-            saved = (self.link[i], self.plain[i])
-            self.lines.append("ctx = t.param.update(p%d=%d)" % (i, -f1))
+        elif name[0] == 'c':
+            form, targets = name[1], [int(ch) for ch in name[2:]]
+            vals = dict(zip(targets, (-f1, -f2)))
+            saved = {j: (self.link[j], self.plain[j]) for j in targets}
+            self.lines.append("ctx = " + ctx_call(form, [(j, vals[j]) for j in targets]))
             self.lines.append("ctx.__enter__()")
-            self.link[i] = None
-            self.plain[i] = -f1
+            for j in targets:
+                self.link[j] = None
+                self.plain[j] = vals[j]
             self.check(name + ':enter', leak=False)
             self.v[1], self.v[2] = f1, f2
             self.lines.append("s1.v = %d; s2.v = %d" % (f1, f2))
             self.check(name + ':inside', leak=False)
             self.lines.append("ctx.__exit__(None, None, None)")
-            self.link[i], self.plain[i] = saved
-            if self.link[i] is not None:
-                self.link[i] = (self.link[i][0], self.link[i][1], 'restore') + tuple(self.link[i][3:])
+            for j in targets:
+                self.link[j], self.plain[j] = saved[j]
+                if self.link[j] is not None:
+                    self.link[j] = (self.link[j][0], self.link[j][1], 'restore') + tuple(self.link[j][3:])
             self.check(name + ':exit')
         else:
             raise ValueError(name)
@@ -342,8 +384,11 @@ def run_case(cfg, hist):
         if isinstance(ln, tuple):
             _c, tag, e1, e2, allowed, links, holds = ln
             t = env['t']
-            if tag[:2] in ('rl', 'ov') or tag.endswith(':enter') or tag.endswith(':exit'):
+            if tag[:2] in ('rl', 'ov'):
                 diverged[int(tag[2])] = False
+            elif tag.endswith(':enter') or tag.endswith(':exit'):
+                for ch in tag.split(':')[0][2:]:
+                    diverged[int(ch)] = False
             for i, e in ((1, e1), (2, e2)):
                 nval += 1
                 got = getattr(t, 'p%d' % i)
@@ -514,6 +559,8 @@ def vclass(v):
         at = 'ctx-enter'
     elif tag.endswith(':exit'):
         at = 'ctx-exit'
+    if tag[0] == 'c' and tag[1] != 'x' and ':' in tag:
+        at += '[%s]' % CX_FORM[tag[1]]        # update(...) called with a mapping / pairs / mixed
     else:
         at = tag.rstrip('12')
     if v['kind'] == 'mismatch':
@@ -549,7 +596,7 @@ def _run(tier, seed):
               "skipping bind@s1} x link mode x relink targets {skipping bind, P}; histories additionally over "
               "{z1, z2: move a source to a value for which the reference skips}. "
               "A case = (configuration, history of maximal length); shorter histories are its prefixes. "
-              + c08_ext.RULE),
+              + c08_ext.RULE + ' ' + c08_rj.RULE),
         bound=("quick: all histories of length <= 2 over 8 operations on the 162 core configurations and a seeded "
                "1/3 of the other 744 + a seeded 1/8 sample of the length-3 histories on the core; skip family: all "
                "histories of length <= 2 over 10 operations on %d configurations" % len(skip_configs('quick'))
@@ -559,7 +606,10 @@ def _run(tier, seed):
                "skip family: all histories of length <= 3 over 10 operations on the %d configurations of the quick "
                "tier, length <= 2 on the other %d (second relink target of p2, shared-source p2, nested_refs=False)"
                % (len(skip_configs('quick')), len(skip_configs('thorough')) - len(skip_configs('quick'))))
-        + '; ' + c08_ext.bound_text(tier))
+        + '; ' + c08_ext.bound_text(tier) + '; ' + c08_rj.bound_text(tier)
+        + '; context forms (CX): %d ways of calling update(...) x pre {-,rl1,rl2,ov2,u1} x post {u1,u2,ov1,rl2} on the '
+          '%s' % (len(CXOPS), 'core configurations (pre=-, post = update of the source of each suspended link complete, the rest a seeded 1/24)' if tier == 'quick'
+                  else 'core configurations, 4 pre/post shapes on all the others'))
     warnings.simplefilter('ignore')
     cfgs = configs()
     rnd = random.Random(2000 + seed)
@@ -586,6 +636,26 @@ def _run(tier, seed):
     for c in scfgs:
         for op in ops_of(c):
             tasks.append((c, (op,), 3 if (tier == 'thorough' and c in score) else 2))
+    # family CX: `with t.param.update(...)` called with a mapping / pairs / keywords / both mixed
+    ncx = 0
+    for c in cfgs:
+        if tier == 'quick' and not is_core(c):
+            continue
+        for cx in CXOPS:
+            for pre in CX_PRE:
+                for post in CX_POST:
+                    if tier == 'quick':
+                        # complete: no operation before, afterwards an update of the source of each suspended link
+                        main = pre == () and post in [('u%s' % ch,) for ch in cx[2:]]
+                        if not main and rnd.random() >= 1 / 24.0:
+                            continue
+                    if tier != 'quick' and not is_core(c) and (pre, post) not in (((), ('u1',)), ((), ('u2',)),
+                                                                                 (('rl1',), ('u2',)), (('ov2',), ('u1',))):
+                        continue
+                    h = pre + (cx,) + post
+                    tasks.append((c, h, len(h)))
+                    ncx += 1
+    B.note('family CX (update contexts called with a mapping / pairs / mixed): %d histories pre;ctx;post' % ncx)
     rnd.shuffle(tasks)
     nchunk = 512
     chunks = [tasks[i::nchunk] for i in range(nchunk)]
@@ -594,12 +664,23 @@ def _run(tier, seed):
         B.exhaustive = False
     nx = max(1, len(xtasks) // 40)
     xchunks = [xtasks[i::nx] for i in range(nx)]
+    rtasks = c08_rj.tasks(tier, seed)
+    nr = max(1, len(rtasks) // 400)
+    rchunks = [rtasks[i::nr] for i in range(nr)]
+    rallv = []
     allv = []
     xallv = []
     samples = []
     with ProcessPoolExecutor(max_workers=min(16, os.cpu_count() or 4)) as ex:
         xfuts = [ex.submit(c08_ext.run_chunk, c) for c in xchunks if c]
+        rfuts = [ex.submit(c08_rj.run_chunk, c) for c in rchunks if c]
         futs = [ex.submit(run_chunk, c) for c in chunks if c]
+        for fu in rfuts:
+            for key, nval, nleak, _n, viols in fu.result():
+                B.case(key=key)
+                B.checked('C08/mirror/value == resolve(reference)', nval)
+                B.checked('C08/override-relink/old sources keep no watcher of the target', nleak)
+                rallv += viols
         for fu in xfuts:
             for key, nval, nleak, nref, viols in fu.result():
                 B.case(key=key)
@@ -639,7 +720,7 @@ def _run(tier, seed):
                     break
             if v['tag'] == 'init':
                 nsteps = 0
-            rk = (nsteps, cfg_rank(v['cfg']), [(OPS + ZOPS).index(o) for o in v['hist'][:nsteps]])
+            rk = (nsteps, cfg_rank(v['cfg']), [(OPS + ZOPS + CXOPS).index(o) for o in v['hist'][:nsteps]])
             if best is None or rk < best[0]:
                 best = (rk, v, nsteps)
         _rk, rep, nsteps = best
@@ -653,6 +734,7 @@ def _run(tier, seed):
                         'links at the failing check: %r; %d failing cases in this class' % (rep['links'], len(groups[key])),
                         (nsteps, cfg_rank(rep['cfg']))))
     reports += c08_ext.reports(xallv)
+    reports += c08_rj.reports(rallv)
     reports.sort(key=lambda r: (r[0], r[5], r[1]))
     per_clause, kept = {}, []
     for r in reports:
